@@ -46,6 +46,22 @@ def _driver(ctx: Ctx):
                     forced.append(ev.info['callee'].unit)
             if runners:
                 return g.root, runners[0], (forced[0] if forced else None)
+    # the iterations are not a `for ... in range(...)`: the task root that reads the bound of the destination off the graph and
+    # runs a sub-dag in its own activation
+    for fid, g in ctx.run_graphs().items():
+        root = g.root
+        if root.cls is not ctx.manager_class() or not any(isinstance(n, ast.Attribute) and n.attr == 'max_iterations' for n in ast.walk(root.node)):
+            continue
+        runners = [ev.info['callee'].unit for ev in g.events('call') if ev.inst.parent is None and ev.info.get('inlined')
+                   and ev.info.get('callee') is not None and _runs_launch_loop(ctx, g, ev)]
+        forced = []
+        for ev in g.events('call'):
+            c = ev.node
+            if isinstance(c, ast.Call) and ev.info.get('callee') is not None and any(
+                    k.arg and 'default' in k.arg and isinstance(k.value, ast.Constant) and k.value.value is True for k in c.keywords):
+                forced.append(ev.info['callee'].unit)
+        if runners:
+            return root, runners[0], (forced[0] if forced else None)
     raise AnalysisError('the driver of a recurrent subgraph (iteration loop running a sub-dag) was not found (RC anchors vanished)')
 
 
@@ -122,6 +138,10 @@ def observe(ctx: Ctx, sc: Scenario) -> Dict[str, Any]:
                                 'handed': handed})
             step = sc.script[min(i, len(sc.script) - 1)]
             if step == 'error':
+                # the real run of a recurrent sub-dag re-arms (hides) its nodes first; then M fails and D is never reached
+                from ..absint import hidden_dict_api
+                hd = storage.attrs['node_results']
+                Interp(p, Oracle()).call_unit(hidden_dict_api(p, hd.cls)['hide'], ['D'], {}, hd)
                 set_result('M', AObj(('ext', 'builtins.ValueError'), {'args': ()}, tag='EXC'))
                 return None
             if step == 'again':
@@ -262,6 +282,16 @@ def rule_recurrent_worlds(ctx: Ctx, out: Collector) -> None:
                                                 f'(must wake run() and raise RecurrentSubgraphDoesNotHaveResultError)')
             if o['outcome'] == ('returns',):
                 regular_end(o, label)
+    # ---- the bound itself: 0, 1 and 2 re-executions allowed, the destination keeps asking
+    for bound in (0, 1, 2):
+        label = f'keeps asking, max_iterations={bound}, use_default'
+        o = obs(label, Scenario(['again'], use_default=True, is_oneof=False, max_iterations=bound))
+        runs = o['log']['runs']
+        if o['outcome'] == ('endless',) or len(runs) != bound:
+            problems['RC-1'].append(f'{label}: the subgraph is run {len(runs)} time(s)')
+        res = _present(o['storage'].attrs['node_results'], 'D')
+        if len(o['log']['default']) != 1 or res is not o['default']:
+            problems['RC-4'].append(f'{label}: the default is requested {len(o["log"]["default"])} time(s), the destination holds {getattr(res, "tag", res)!r}')
     # ---- a second request while the subgraph is running
     o = obs('second request while running', Scenario(['value'], use_default=False, is_oneof=False, pre_active=True))
     if o['log']['runs']:
@@ -283,3 +313,22 @@ def rule_recurrent_worlds(ctx: Ctx, out: Collector) -> None:
         else:
             out.bad(rid, cons, where, f'{consequence}: ' + '; '.join(sorted(set(problems[rid]))[:3]), table=table,
                     props={'C11', 'C02'} if rid == 'RC-11' else None)
+
+
+def error_exit_worlds(ctx: Ctx) -> Tuple[FuncUnit, List[str], Dict[str, str]]:
+    """RC-9 over worlds: a re-iteration fails (an error appears in the store of a node of the subgraph).  Afterwards the destination
+    has an outcome its consumers can see (a visible result, its waiters notified) or the driver raised."""
+    from ..absint import presence_of
+    driver, run_dag, run_node = _driver(ctx)
+    problems, table = [], {}
+    for oneof in (False, True):
+        label = f'a re-iteration fails, {"one-of" if oneof else "plain"} dag'
+        o = observe(ctx, Scenario(['error'], use_default=False, is_oneof=oneof))
+        if 'undecided' in o:
+            raise AnalysisError(f'recurrent world "{label}": {o["undecided"]}')
+        hd = o['storage'].attrs['node_results']
+        state = presence_of(hd, 'D', ctx.p)
+        table[label] = f'the driver {o["outcome"]}; the destination\'s result is {state}'
+        if not (o['outcome'] and o['outcome'][0] == 'raise') and state != 'visible':
+            problems.append(f'{label}: the driver {o["outcome"][0] if o["outcome"] else "?"}, the destination\'s result is {state}')
+    return driver, problems, table
